@@ -33,6 +33,10 @@ def corpus():
         "run prop=C05 mode=users dur=300 conc=2 block=2 timeout=300 retmax=2500",          # D21: users mode and an iteration that never returns
         "run prop=C05 mode=users dur=400 conc=3 block=1 timeout=500 retmax=2900",
         "run prop=C05 mode=file dur=2000 conc=2 file=u:300:2 block=2 timeout=300 retmax=2500",   # D21b: the same in a users *stage* of a config file
+        "run prop=C05 mode=constant rate=5/100ms dist=none dur=3000 conc=5 maxit=5 block=1 timeout=300",    # D27: limit reached while an iteration never returns
+        "run prop=C05 mode=users dur=3000 conc=3 maxit=6 block=2 timeout=300",
+        "run prop=C05 mode=file dur=3000 conc=3 maxit=4 file=u:1000:3;c:500:1/100ms block=2 timeout=300 retmax=2000",
+        "run prop=C05 mode=file dur=4000 conc=3 file=c:300:2/100ms block=1 timeout=300 retmax=2200",          # stages over before the duration
         "run prop=C05 mode=constant rate=5/100ms dur=10 conc=4 body=1",
         "run prop=C05 mode=staged stages=0s:3,300ms:3 freq=100 dist=none dur=5000 conc=4 body=10 retmax=3500",
         "run prop=C05 mode=constant rate=3/100ms dur=900 conc=3 body=20 cancel=250",
@@ -63,6 +67,9 @@ def generate(rng, tier):
         if end == "blocked":        # an iteration that never returns: the completion timeout ends the wait, in every mode
             extra = " block=%d timeout=%d" % (rng.randint(1, 3), rng.choice([200, 400]))
             body = rng.choice([0, 5])
+            if rng.random() < 0.4:      # ... also when it is the iteration limit that ends the triggering (D27)
+                extra += " maxit=%d" % rng.randint(4, 12)
+                dur = 2500
         if end == "limit":
             extra = " maxit=%d" % rng.randint(1, 12)
         elif end == "cancel":
